@@ -553,9 +553,10 @@ def check_c05(tier, seed):
             if a is not None:
                 v.report("C05 name-used-after-its-construct-ended resolves", {"name": n, "site": loc(R, site), "got": a,
                                                                               "text": R.text[R.sites[site][0]]}, replay)
-            want = loc(R, site) + ["symbol not found: %s" % LX(n)]
-            expected_diags.append(want)
-            if want not in diag_msgs:
+            # (the wording of the message is not part of the property: any diagnostic exactly on the use counts)
+            here = [d for d in diag_msgs if d[:3] == loc(R, site)]
+            expected_diags.extend(here)
+            if not here:
                 v.report("C05 name-used-after-its-construct-ended not-reported", {"name": n, "site": loc(R, site), "diagnostics": diag_msgs[:5],
                                                                                  "text": R.text[R.sites[site][0]]}, replay)
         extra = [d for d in diag_msgs if d not in expected_diags]
@@ -669,6 +670,15 @@ def check_c18(tier, seed):
     return v.finish("model_checking", cov, ["a field both declared and overridden in the same body is an ambiguity zone (children not compared)"])
 
 
+def same_words(shown, expected):
+    """hover / hint texts are compared by their words (kind, owner, name, declared type, in any layout), not character by character"""
+    import collections
+    import re
+    if shown is None or expected is None:
+        return shown == expected
+    return collections.Counter(re.findall(r"\w+", shown)) == collections.Counter(re.findall(r"\w+", expected))
+
+
 def check_c19(tier, seed):
     v = Verdict("C19", tier, seed)
     wd = common.workdir("C19-%s" % tier)
@@ -691,7 +701,7 @@ def check_c19(tier, seed):
             if a is None:
                 v.report("C19 hover none-on-resolved-identifier of=%s" % dk, {"site": loc(R, site), "text": R.text[R.sites[site][0]]}, replay)
                 continue
-            if a[0] != sig:
+            if not same_words(a[0], sig):
                 v.report("C19 hover signature-differs of=%s" % dk, {"expected": sig, "got": a[0], "site": loc(R, site),
                                                                      "text": R.text[R.sites[tgt][0]]}, replay)
             if tgt in R.docs or dk in ("class", "def", "field", "defset", "multiclass", "defvar", "targ"):
@@ -713,7 +723,7 @@ def check_c19(tier, seed):
             want = R.letsig.get(tsite) or R.sigs.get(tsite)
             if tsite is None:
                 v.report("C19 hover override-use definition-lands-on-no-declaration", {"site": loc(R, site), "definition": d, "text": R.text[R.sites[site][0]]}, replay)
-            elif h is None or h[0] != want:
+            elif h is None or not same_words(h[0], want):
                 v.report("C19 hover signature-differs of=%s" % ("field-override" if tsite in R.letsig else "field"),
                          {"expected": want, "got": h and h[0], "definition": d, "site": loc(R, site), "text": R.text[R.sites[site][0]]}, replay)
         for f in ("main", "lib"):
@@ -723,7 +733,7 @@ def check_c19(tier, seed):
             exp = sorted([(pos, lab) for (ff, pos, lab, owner) in R.hints if ff == f and R.decl_kind_of_owner(owner) != "defm"]
                          + [(pos, lab) for (ff, pos, lab, site) in R.lets if ff == f])
             nhint += len(exp)
-            if got != exp:
+            if [x[0] for x in got] != [x[0] for x in exp] or any(not same_words(g[1], e[1]) for g, e in zip(got, exp)):
                 what = "missing" if len(got) < len(exp) else "surplus" if len(got) > len(exp) else (
                     "label-differs" if [x[0] for x in got] == [x[0] for x in exp] else "position-differs")
                 kind = "let" if any(l.startswith(":") for _p, l in set(got) ^ set(exp)) else "template-arg"
@@ -735,7 +745,7 @@ def check_c19(tier, seed):
                 got_r = sorted((x[1], x[3]) for x in (a[0] or []))
                 exp_r = [x for x in exp if rs_ <= x[0] <= re_]
                 nhint += 1
-                if got_r != exp_r:
+                if [x[0] for x in got_r] != [x[0] for x in exp_r] or any(not same_words(g[1], e[1]) for g, e in zip(got_r, exp_r)):
                     outside = [x for x in got_r if not (rs_ <= x[0] <= re_)]
                     v.report("C19 hints range-filter %s" % ("returns-hint-outside-range" if outside else "omits-hint-inside-range"),
                              {"file": f, "range": [rs_, re_], "expected": exp_r, "got": got_r, "text": R.text[f]}, replay)
